@@ -4,6 +4,8 @@ import IbModel.Proofs.CheckpointStore
 import IbModel.Proofs.CheckpointUtf8
 import IbModel.Proofs.CheckpointSha
 import IbModel.Proofs.CheckpointTrunc
+import IbModel.Proofs.CheckpointFile
+import IbModel.Proofs.CheckpointHistory
 import IbModel.Generated.Tables
 /-!
 # C12 — checkpoint store: faithful round trip, integrity, bounded retention, true latest
@@ -16,8 +18,24 @@ everywhere. What the theorems need of it is stated pointwise and holds for the r
 * tamper rejection needs `NoCollisionAt H (metaString s') (metaString s)` — no collision on the TWO strings
   involved (not global injectivity, which no hash with bounded output has); checked by kernel evaluation for
   `Sha.sha256Hex` on concrete pairs in the non-vacuity section, where ONE `H` satisfies all of them at once.
-`IB.Generated.ckptDecodeLimit` is printed from the running code on every run, so the theorems that
-mention it are re-checked against the code's current constant.
+`IB.Generated.ckptDecodeLimit` / `IB.Generated.ckptReadCap` are printed from the running code on every run, so the
+theorems that mention them are re-checked against the code's current constants.
+
+Scope of the model (what the theorems do NOT say; DESIGN §13.8):
+* `load` / `decodeState` = the decoder on a buffer; `loadFile` = `load_checkpoint(path)` including the read buffer
+  (`loadFile_eq_load`: the two agree on every file, so the `load` theorems are theorems about files).
+* the file system: `save` is the save in an existing directory under a usable file name; `saveChecked` /
+  `latestChecked` / `clearChecked` add the unusable-name and missing / non-directory cases. ASSUMED of the file system
+  (not modelled, not injectable as root): `read_dir` lists every entry, `remove_file` on a listed regular file succeeds
+  (the code ignores its error — a failed deletion would silently leave more than `max` files), and the clean-up that
+  follows the write does not fail (`save_checkpoint` is not atomic: an `Err` from the clean-up's `read_dir` would leave
+  the new file written). Entries that are not regular files after following symlinks are invisible to every scan
+  (checked by the harness on directories, symlinks to directories, dangling symlinks and sockets).
+* integrity: a file in which protected fields AND checksum were altered CONSISTENTLY is a different genuine checkpoint
+  and is accepted (the hash is unkeyed) — the "both differ" disjunct of `accepted_bytes_agree_or_both_differ`; the
+  property's sentence is proved for alterations of exactly one side. `NoCollisionAt` is discharged by kernel
+  evaluation for one pair (`sha256_noCollision_example`); for every other pair of a run the harness oracle
+  `altered-protected-field-or-checksum-accepted` stands in for it.
 -/
 namespace IB.Checkpoint
 
@@ -122,9 +140,10 @@ theorem load_ignores_trailing (H : Bytes → Bytes) (cfg : Cfg) (s : State) (wf 
 
 /-! ## 2. Malformed bytes: an error, never a crash, never an unbounded allocation -/
 
-/-- **Bounded allocation, every input**: with a decode limit `L` that the allocator can satisfy
-    (`L ≤ mem`, `L ≤ isize::MAX`), `load_checkpoint` on ARBITRARY bytes never hits "capacity overflow" and never
-    exhausts memory. (Totality — it always returns `ok` or an error — is by construction: `load` is a total
+/-- **Bounded allocation, every input** (the DECODER's buffers; the buffer the file is read into is the subject of
+    `loadFile_never_crashes` below): with a decode limit `L` that the allocator can satisfy
+    (`L ≤ mem`, `L ≤ isize::MAX`), the decoding half of `load_checkpoint` on ARBITRARY bytes never hits "capacity
+    overflow" and never exhausts memory. (Totality — it always returns `ok` or an error — is by construction: `load` is a total
     function.) Taking `mem = L` says: no single buffer larger than the limit is ever requested. -/
 theorem load_never_crashes_of_limit (H : Bytes → Bytes) (cfg : Cfg) (L : Nat) (hL : cfg.limit = some L)
     (hmem : L ≤ cfg.mem) (hI : L ≤ isizeMax) (bytes : Bytes) : NoCrash (load H cfg bytes) := by
@@ -204,6 +223,93 @@ theorem load_append_stable (H : Bytes → Bytes) (cfg : Cfg) (bytes tail : Bytes
     obtain ⟨s0, r0⟩ := r
     rw [h1 s0 r0 hd]
     exact ⟨fun s' h => h, fun e h _ => h⟩
+
+/-! ### The file on disk: the read buffer
+
+`load`/`decodeState` above speak about the decoder running on a buffer that already holds the file's bytes. The real
+`load_checkpoint(path)` first fills that buffer: since the `fix:` with at most `MAX_CHECKPOINT_FILE_BYTES` bytes
+(`File::take`), before it with the WHOLE file (`read_to_end`), however large. `loadFile` models both (cap `some c` /
+`none`); the cap is printed from the running code (`IB.Generated.ckptReadCap`). -/
+
+/-- the read cap of the running code -/
+def currentCap : Option Nat := some IB.Generated.ckptReadCap
+
+/-- the read buffer never holds more than the cap, whatever the size of the file -/
+theorem read_buffer_bounded (file : Bytes) : (readPart currentCap file).length ≤ IB.Generated.ckptReadCap := by
+  unfold readPart currentCap
+  simp only [List.length_take]
+  omega
+
+/-- **The cap is sufficient — capping the read changes no answer**: for EVERY file content, `load_checkpoint(path)`
+    (read at most the cap, then decode and verify) answers exactly what decoding and verifying the whole content
+    answers. (Why: the decoder claims before it reads and consumes at most one byte more than it claims per integer,
+    so it never looks beyond `limit + 8` bytes — `decodeState_eof_short`; the theorem needs `limit + 9 ≤ cap`,
+    re-checked against the two constants of the running code by `decide`.) Hence every theorem about `load` in this
+    file is a theorem about the files `load_checkpoint` is given. -/
+theorem loadFile_eq_load (H : Bytes → Bytes) (mem : Nat) (hmem : IB.Generated.ckptReadCap ≤ mem) (file : Bytes) :
+    loadFile H (currentCfg mem) currentCap file = load H (currentCfg mem) file := by
+  have hcap : IB.Generated.ckptDecodeLimit + 9 ≤ IB.Generated.ckptReadCap := by decide
+  have hI : IB.Generated.ckptReadCap ≤ isizeMax := by decide
+  have hb := read_buffer_bounded file
+  unfold loadFile
+  have ha : alloc (currentCfg mem) (readPart currentCap file).length = .ok () := by
+    unfold alloc
+    rw [if_neg (by omega), if_neg (by unfold currentCfg; simp only; omega)]
+  rw [ha, andThen_ok]
+  exact load_take H (currentCfg mem) _ rfl _ hcap file
+
+/-- **`load_checkpoint(path)` never crashes and never allocates beyond the cap, for EVERY file** — of any size,
+    any content: the read buffer has at most `MAX_CHECKPOINT_FILE_BYTES` bytes and every decoder buffer at most
+    `MAX_CHECKPOINT_DECODE_BYTES ≤` that. Taking `mem = cap`: an allocator that can give exactly `cap` bytes per request
+    suffices. -/
+theorem loadFile_never_crashes (H : Bytes → Bytes) (mem : Nat) (hmem : IB.Generated.ckptReadCap ≤ mem)
+    (file : Bytes) : NoCrash (loadFile H (currentCfg mem) currentCap file) := by
+  have hle : IB.Generated.ckptDecodeLimit ≤ IB.Generated.ckptReadCap := by decide
+  rw [loadFile_eq_load H mem hmem file]
+  exact load_never_crashes H mem (Nat.le_trans hle hmem) file
+
+theorem loadFile_allocates_at_most_cap (H : Bytes → Bytes) (file : Bytes) :
+    NoCrash (loadFile H (currentCfg IB.Generated.ckptReadCap) currentCap file) :=
+  loadFile_never_crashes H _ (Nat.le_refl _) file
+
+/-- the round trip through the file: every record of the property's quantifier, saved and loaded by path -/
+theorem loadFile_encode_current (H : Bytes → Bytes) (mem : Nat) (hmem : IB.Generated.ckptReadCap ≤ mem)
+    (s : State) (wf : s.WF) (h4 : Within4K s) (hck : s.checksum = H (metaString s)) :
+    loadFile H (currentCfg mem) currentCap (encode s) = .ok s := by
+  have hle : IB.Generated.ckptDecodeLimit ≤ IB.Generated.ckptReadCap := by decide
+  rw [loadFile_eq_load H mem hmem]
+  exact load_encode_current H mem (Nat.le_trans hle hmem) s wf h4 hck
+
+/-- a long run of one byte behind a head (a sparse / padded file) may be shortened to the cap without changing the
+    answer — what the driver does with the `CKPT-DECBIG` files of several hundred MiB -/
+theorem loadFile_padded (H : Bytes → Bytes) (cfg : Cfg) (cap : Nat) (head : Bytes) (k : Nat) (v : UInt8) :
+    loadFile H cfg (some cap) (head ++ List.replicate k v) =
+      loadFile H cfg (some cap) (head ++ List.replicate (min k cap) v) := by
+  have : readPart (some cap) (head ++ List.replicate k v) =
+      readPart (some cap) (head ++ List.replicate (min k cap) v) := by
+    unfold readPart
+    simp only [List.take_append, List.take_replicate]
+    congr 2
+    omega
+  unfold loadFile
+  rw [this]
+
+/-- NEGATION for the code before the read-cap `fix:` (reproduced on the real code: a 256 MiB sparse file named like a
+    checkpoint made `load_checkpoint` allocate 256 MiB — 269 MB resident — and, in a 64 MiB address space, fail with
+    "Failed to read checkpoint"): for EVERY amount of memory there is a file — `mem + 1` zero bytes — whose load
+    asks the allocator for more than there is, before any decode limit applies. The current code reads at most the
+    cap of the same file and answers without crashing. -/
+theorem legacy_loadFile_allocates_file_size (H : Bytes → Bytes) (mem : Nat) (hmem : mem < isizeMax) :
+    Legacy.loadFile H (currentCfg mem) (List.replicate (mem + 1) 0) = .error .allocFail ∧
+    (IB.Generated.ckptReadCap ≤ mem →
+      NoCrash (loadFile H (currentCfg mem) currentCap (List.replicate (mem + 1) 0))) := by
+  refine ⟨?_, fun h => loadFile_never_crashes H mem h _⟩
+  unfold Legacy.loadFile loadFile readPart
+  simp only [List.length_replicate]
+  have : alloc (currentCfg mem) (mem + 1) = .error .allocFail := by
+    unfold alloc
+    rw [if_neg (by omega), if_pos (by unfold currentCfg; simp only; omega)]
+  rw [this]; rfl
 
 /-- NEGATION for the pinned commit (DESIGN §8 #8): nine bytes — a length prefix of `2^63` — make the
     unlimited decoder panic with "capacity overflow", whatever the hash and however much memory there is. -/
@@ -418,8 +524,9 @@ def applyFault (b : Bytes) : Fault → Bytes
 def applyFaults (b : Bytes) (fs : List Fault) : Bytes := fs.foldl applyFault b
 
 /-- **For all fault sequences on the encoded file** (single-bit flips, overwrites, truncations, insertions,
-    deletions, appended bytes, any number of them in any order): the running code does not crash, requests no buffer
-    beyond the decode limit, and — if it accepts the damaged file at all — returns a record that is intact with
+    deletions, appended bytes, any number of them in any order): the DECODER of the running code, run on a buffer holding
+    the damaged content, does not crash, requests no buffer beyond the decode limit (the buffer that holds the content
+    itself is the subject of `faulted_file_on_disk`), and — if it accepts the damaged file at all — returns a record that is intact with
     respect to its own checksum and agrees with the saved record on all protected fields and the checksum or
     differs from it in both. -/
 theorem faulted_file (H : Bytes → Bytes) (mem : Nat) (hmem : IB.Generated.ckptDecodeLimit ≤ mem)
@@ -432,6 +539,23 @@ theorem faulted_file (H : Bytes → Bytes) (mem : Nat) (hmem : IB.Generated.ckpt
         (protectedFields s' ≠ protectedFields s ∧ s'.checksum ≠ s.checksum)) :=
   ⟨load_never_crashes H mem hmem _, fun s' hl =>
     ⟨(load_ok_inv hl).2, accepted_bytes_agree_or_both_differ H _ s s' _ hs hl⟩⟩
+
+/-- **The same for the file on disk** (`load_checkpoint(path)`: read at most the cap, then decode): whatever the fault
+    sequence did to the saved file — including appending ANY number of bytes, e.g. a tail of several hundred MiB — the
+    load neither crashes nor requests a buffer beyond `MAX_CHECKPOINT_FILE_BYTES`, and what it accepts is intact. -/
+theorem faulted_file_on_disk (H : Bytes → Bytes) (mem : Nat) (hmem : IB.Generated.ckptReadCap ≤ mem)
+    (s : State) (hs : s.checksum = H (metaString s)) (faults : List Fault) :
+    NoCrash (loadFile H (currentCfg mem) currentCap (applyFaults (encode s) faults)) ∧
+    (readPart currentCap (applyFaults (encode s) faults)).length ≤ IB.Generated.ckptReadCap ∧
+    ∀ s', loadFile H (currentCfg mem) currentCap (applyFaults (encode s) faults) = .ok s' →
+      s'.checksum = H (metaString s') ∧
+      (NoCollisionAt H (metaString s') (metaString s) →
+        (protectedFields s' = protectedFields s ∧ s'.checksum = s.checksum) ∨
+        (protectedFields s' ≠ protectedFields s ∧ s'.checksum ≠ s.checksum)) := by
+  have hle : IB.Generated.ckptDecodeLimit ≤ IB.Generated.ckptReadCap := by decide
+  refine ⟨loadFile_never_crashes H mem hmem _, read_buffer_bounded _, ?_⟩
+  rw [loadFile_eq_load H mem hmem]
+  exact (faulted_file H mem (Nat.le_trans hle hmem) s hs faults).2
 
 /-- every accepted record carries the hash of its own checksum string -/
 theorem accepted_checksum_matches (H : Bytes → Bytes) (cfg : Cfg) (bytes : Bytes) (s' : State)
@@ -644,6 +768,121 @@ theorem save_latest_load (H : Bytes → Bytes) (cfg : Cfg) (max : Option Nat) (h
     rw [read_cleanup_of_mem _ _ max _ _ hF]
     exact read_write_same fs _ _
 
+/-! ### The store invariant and resume after ANY history
+
+`save_latest_load` needs the saved state to be the newest. The statements below drop that: after any history of saves
+— any pipelines interleaved, timestamps in any order, `max_checkpoints` changing from save to save — every file is what
+the LAST save under its name wrote, and `find_latest_checkpoint ; load_checkpoint` yields the surviving saved state of
+the greatest timestamp, field for field. -/
+
+/-- a state `save_checkpoint` ; `load_checkpoint` round-trips under `cfg` (cf. `load_encode`) -/
+structure Good (H : Bytes → Bytes) (cfg : Cfg) (s : State) : Prop where
+  wf : s.WF
+  fits : FitsMem cfg s
+  lim : overLimit cfg (claims s) = false
+  ck : s.checksum = H (metaString s)
+
+/-- **Store invariant**: start from a directory without well-formed checkpoints of `pid` (foreign files and other
+    pipelines' files allowed), run ANY history. Every well-formed checkpoint file of `pid` that is there afterwards
+    holds exactly the encoding of the state most recently saved under that name; that state belongs to `pid` and its
+    timestamp is the stamp in the name. -/
+theorem store_invariant (pid : Bytes) (fs0 : FS) (hfs0 : ∀ n ∈ names fs0, isOwn pid n = false) (hist : Hist)
+    (hts : ∀ h ∈ hist, h.2.timestamp ≤ u64Max) (f : Name × Bytes) (hf : f ∈ savesV fs0 hist)
+    (hown : isOwn pid f.1 = true) :
+    ∃ s, lastSaved f.1 hist = some s ∧ f.2 = encode s ∧ fileName s = f.1 ∧ s.pipelineId = pid ∧
+      fileStamp (pfx pid) f.1 = some s.timestamp := by
+  obtain ⟨h1, h2⟩ := savesV_content hist fs0 f hf
+  cases hl : lastSaved f.1 hist with
+  | none =>
+    have hmem : f.1 ∈ names fs0 := List.mem_map.mpr ⟨f, h2 hl, rfl⟩
+    rw [hfs0 f.1 hmem] at hown; cases hown
+  | some s =>
+    obtain ⟨hn, m, hm⟩ := lastSaved_name hl
+    have hts' := hts (m, s) hm
+    have hpid : s.pipelineId = pid := by
+      have := saved_name_isOwn s hts'
+      rw [hn] at this
+      exact own_unique this hown
+    refine ⟨s, rfl, h1 s hl, hn, hpid, ?_⟩
+    rw [← hn, ← hpid]; exact saved_name_stamp s hts'
+
+/-- **Resume after any history** (turns the harness oracle `latest-file-holds-another-checkpoint` into a theorem): if
+    `find_latest_checkpoint(pid)` answers `n` after an arbitrary history of saves of round-trippable states, then `n`
+    is the file of the state `s` most recently saved under that name, `s` is a state of `pid`, the file holds exactly
+    `encode s`, `load_checkpoint` of it returns `s` field for field, and no well-formed checkpoint of `pid` left in the
+    directory has a greater stamp than `s.timestamp`. No "newest" hypothesis, no fixed `max`. -/
+theorem resume_after_any_history (H : Bytes → Bytes) (cfg : Cfg) (pid : Bytes) (fs0 : FS)
+    (hfs0 : ∀ n ∈ names fs0, isOwn pid n = false) (hist : Hist) (hgood : ∀ h ∈ hist, Good H cfg h.2)
+    (n : Name) (hl : latest true pid (savesV fs0 hist) = some n) :
+    ∃ s, lastSaved n hist = some s ∧ s.pipelineId = pid ∧ fileName s = n ∧
+      read (savesV fs0 hist) n = some (encode s) ∧ load H cfg (encode s) = .ok s ∧
+      ∀ c ∈ names (savesV fs0 hist), ∀ tc, fileStamp (pfx pid) c = some tc → tc ≤ s.timestamp := by
+  obtain ⟨hmem, tn, htn, hmax⟩ := latest_is_greatest pid _ n hl
+  obtain ⟨c, hread, hc⟩ := read_some_mem hmem
+  have hown : isOwn pid n = true := by unfold isOwn; rw [htn]; rfl
+  obtain ⟨s, hs, hcont, hname, hpid, hstamp⟩ :=
+    store_invariant pid fs0 hfs0 hist (fun h hh => (hgood h hh).wf.ts) (n, c) hc hown
+  obtain ⟨_, m, hm⟩ := lastSaved_name hs
+  have g := hgood (m, s) hm
+  simp only at hcont hstamp
+  have : tn = s.timestamp := by rw [htn] at hstamp; injection hstamp
+  refine ⟨s, hs, hpid, hname, by rw [hread, hcont], load_encode H cfg s g.wf g.fits g.lim g.ck, ?_⟩
+  rw [← this]; exact hmax
+
+/-- **Retention after every step of every history, `max_checkpoints` varying**: whatever was saved before with
+    whatever limits, after a save with `max_checkpoints = Some m` at most `m` checkpoints of that pipeline remain
+    (supersedes `retention_every_history`, which fixes one `m` for the whole history). -/
+theorem retention_every_history_varying (fs0 : FS) (hn : (names fs0).Nodup) (hist : Hist) (m : Nat) (s : State) :
+    (ownNames s.pipelineId (savesV fs0 (hist ++ [(some m, s)]))).length ≤ m := by
+  rw [savesV_append]
+  exact retention_bound m _ s (names_nodup_savesV hist fs0 hn)
+
+/-! ### The directory as the manager finds it: unusable names, missing / unreadable directory -/
+
+/-- with a usable file name in an existing directory `save_checkpoint` is `save` — every theorem above applies;
+    whether the manager is `enabled` does not matter (the code never reads it in `save_checkpoint`) -/
+theorem saveChecked_ok (en : Bool) (nmax : Nat) (max : Option Nat) (fs : FS) (s : State)
+    (h : nameOK nmax (fileName s) = true) : saveChecked en nmax max (.dir fs) s = some (save max fs s) := by
+  simp only [saveChecked, h, if_true]
+
+/-- a pipeline id that gives an unusable file name (contains `/` or NUL, or makes the name longer than `NAME_MAX`) is
+    refused: `Err`, and the directory is what it was (nothing created, nothing deleted) -/
+theorem saveChecked_unusable_name (en : Bool) (nmax : Nat) (max : Option Nat) (d : Dir) (s : State)
+    (h : nameOK nmax (fileName s) = false) : saveChecked en nmax max d s = none := by
+  unfold saveChecked
+  cases d with
+  | dir fs => simp only [h, Bool.false_eq_true, if_false]
+  | missing => rfl
+  | notDir => rfl
+
+/-- **save ; latest ; load through the manager's entry points**: `save_latest_load` with the file-system side
+    condition made explicit (`nameOK`) and the load by path -/
+theorem save_latest_load_checked (H : Bytes → Bytes) (mem : Nat) (hmem : IB.Generated.ckptReadCap ≤ mem)
+    (en : Bool) (nmax : Nat) (max : Option Nat) (hmax : KeepsOne max) (fs : FS)
+    (s : State) (hn : (names fs).Nodup) (wf : s.WF) (h4 : Within4K s) (hck : s.checksum = H (metaString s))
+    (hname : nameOK nmax (fileName s) = true)
+    (hnew : ∀ n ∈ names fs, n ≠ fileName s → ∀ t, fileStamp (pfx s.pipelineId) n = some t → t < s.timestamp) :
+    ∃ fs', saveChecked en nmax max (.dir fs) s = some fs' ∧
+      latestChecked true s.pipelineId (.dir fs') = some (some (fileName s)) ∧
+      read fs' (fileName s) = some (encode s) ∧
+      loadFile H (currentCfg mem) currentCap (encode s) = .ok s := by
+  have hle : IB.Generated.ckptDecodeLimit ≤ IB.Generated.ckptReadCap := by decide
+  have hlim : 65 + 4 * 4096 ≤ IB.Generated.ckptDecodeLimit := by decide
+  obtain ⟨a1, a2, a3, a4⟩ := h4
+  have hm : FitsMem (currentCfg mem) s := by unfold FitsMem currentCfg; simp only; omega
+  have hc : overLimit (currentCfg mem) (claims s) = false := by
+    unfold overLimit currentCfg claims; simp only [decide_eq_false_iff_not]; omega
+  obtain ⟨h1, h2, _⟩ := save_latest_load H (currentCfg mem) max hmax fs s hn wf hm hc hck hnew
+  refine ⟨save max fs s, saveChecked_ok en nmax max fs s hname, ?_, h2,
+    loadFile_encode_current H mem hmem s wf ⟨a1, a2, a3, a4⟩ hck⟩
+  unfold latestChecked
+  simp only [Bool.not_true, Bool.false_eq_true, if_false, h1]
+
+/-- `find_latest_checkpoint` on a configured directory that does not exist is `Ok(None)` (not an error); a disabled
+    manager answers `Ok(None)` whatever the directory is -/
+theorem latestChecked_missing_or_disabled (pid : Bytes) (d : Dir) :
+    latestChecked true pid .missing = some none ∧ latestChecked false pid d = some none := ⟨rfl, rfl⟩
+
 /-- `clear_checkpoints` removes exactly the pipeline's well-formed checkpoints -/
 theorem clear_spec (pid : Bytes) (fs : FS) (f : Name × Bytes) :
     f ∈ clear pid fs ↔ f ∈ fs ∧ isOwn pid f.1 = false :=
@@ -746,6 +985,28 @@ theorem legacy_directory_counted_as_checkpoint :
   · unfold latest latestWith
     simp only [hf1, List.mergeSort_singleton]
     rfl
+
+/-- pipeline id `"a/b"`; the two leaf names `"b_5.bin"`, `"b_6.bin"` the OS resolved inside `checkpoint_a/` -/
+def pid_ab : Bytes := [97, 47, 98]
+def leaf_b5 : Name := [98, 95, 53, 46, 98, 105, 110]
+def leaf_b6 : Name := [98, 95, 54, 46, 98, 105, 110]
+def st_ab (ts : Nat) : State :=
+  { pipelineId := pid_ab, completedNodeIndex := 1, timestamp := ts, partitionCount := 1, checksum := [],
+    execMode := [], metadata := { totalNodes := 3, lastNodeType := [], progressPercent := 33 } }
+
+/-- NEGATION for the code before the single-component `fix:` (reproduced on the real code: id `a/b`, sub-directory
+    `checkpoint_a/` present, `max_checkpoints = 1`, three saves ⇒ three files in the sub-directory and
+    `find_latest_checkpoint("a/b") = None`): two saves with `max_checkpoints = 1` leave TWO checkpoints (in the
+    sub-directory) and the parent, which is all the scans ever look at, has none. The current code refuses the id
+    (`saveChecked … = none`, nothing written). -/
+theorem legacy_slash_id_escapes_retention :
+    let r1 := Legacy.saveSlash (some 1) [] [] leaf_b5 (st_ab 5)
+    let r2 := Legacy.saveSlash (some 1) r1.1 r1.2 leaf_b6 (st_ab 6)
+    (names r2.2).length = 2 ∧ latest true pid_ab r2.1 = none ∧
+    nameOK 255 (fileName (st_ab 5)) = false ∧
+    saveChecked true 255 (some 1) (.dir []) (st_ab 5) = none := by
+  refine ⟨by decide, ?_, by decide, saveChecked_unusable_name _ _ _ _ _ (by decide)⟩
+  exact latest_none_of_no_own pid_ab _ (by decide)
 
 end Witnesses
 
@@ -850,6 +1111,25 @@ example : validUtf8 [0, 127, 194, 128, 223, 191, 224, 160, 128, 237, 159, 191, 2
 example : [[0xC0, 0x80], [0xC1, 0xBF], [0xE0, 0x9F, 0xBF], [0xF0, 0x8F, 0xBF, 0xBF], [0xED, 0xA0, 0x80],
     [0xF4, 0x90, 0x80, 0x80], [0xF5, 0x80, 0x80, 0x80], [0xFF], [0x80], [0xC2], [0xE1, 0x80], [0xF1, 0x80, 0x80],
     [0x61, 0xC2, 0x41]].all (fun b => validUtf8 b == false) = true := by decide
+
+/-- `exState`'s file name `checkpoint_p_7.bin` is usable on a `NAME_MAX = 255` file system -/
+example : nameOK 255 (fileName exState) = true := by decide +kernel
+
+/-- `Good` is satisfiable: `exState` with the real hash under the running configuration -/
+example (mem : Nat) (hmem : IB.Generated.ckptDecodeLimit ≤ mem) : Good Sha.sha256Hex (currentCfg mem) exState := by
+  have hlim : 1000 ≤ IB.Generated.ckptDecodeLimit := by decide
+  refine ⟨by constructor <;> decide, ?_, ?_, exState_genuine⟩
+  · have e1 : exState.pipelineId.length = 1 := rfl
+    have e2 : exState.checksum.length = 64 := rfl
+    have e3 : exState.execMode.length = 3 := rfl
+    have e4 : exState.metadata.lastNodeType.length = 1 := rfl
+    unfold FitsMem currentCfg; simp only [e1, e2, e3, e4]; omega
+  · have e : claims exState = 134 := rfl
+    unfold overLimit currentCfg; simp only [e, decide_eq_false_iff_not]; omega
+
+/-- `lastSaved` computes: the second save under one name wins -/
+example : lastSaved (fileName exState) [(none, exState), (some 1, { exState with partitionCount := 9 })] =
+    some { exState with partitionCount := 9 } := by decide +kernel
 
 end NonVacuity
 
